@@ -4,10 +4,17 @@ modeldriver — runs the executable model of the code on one operation per line.
 import Switcher.Model.Wire
 import Switcher.Model.Tools
 import Switcher.Model.Device
+import Switcher.Model.Sched
 open Spec Wire Model
 
 def showPyText : Py (List Char) → String
   | .ok cs => "ok " ++ encText cs
+  | .error e => "raise " ++ e.name
+
+def csvNats (s : String) : List Nat := if s == "-" then [] else (s.splitOn ",").filterMap (·.toNat?)
+def showNats (l : List Nat) : String := if l.isEmpty then "-" else ",".intercalate (l.map toString)
+def showPyHex : Py (List Char) → String
+  | .ok cs => "ok " ++ String.ofList cs
   | .error e => "raise " ++ e.name
 
 def drive : List String → String
@@ -23,6 +30,15 @@ def drive : List String → String
     | some c => s!"{(protocolOfType ty).getD 0} {(udpPort c).getD 0} {(tcpPort c).getD 0}"
     | none => "none"
   | ["codes"] => ",".intercalate ((Gen.deviceTypes.map (·.2.2.1)).mergeSort (· ≤ ·))
+  | ["w2h", form, days] =>
+    let l := csvNats days
+    showPyHex (weekdaysToHex (if form == "single" then .single (l.headD 0) else .coll (form == "set") l))
+  | ["bs2d", n] =>
+    match int? n with
+    | some v => match bitSummaryToDays v with
+      | .ok l => "ok " ++ showNats l
+      | .error e => "raise " ++ e.name
+    | none => "bad-arg"
   | _ => "bad-op"
 
 def main : IO Unit := do Wire.loop (← IO.getStdin) (← IO.getStdout) drive
